@@ -13,6 +13,45 @@ import sys
 import traceback
 
 
+def _sensitivity(chk, pid):
+    """Thorough tier: re-run the quick rules on every registered single-edit variant of the *current* tree (scratch copies
+    of /repo/rex in temporary directories, nothing executed) and record which edits the rules notice.  This measures that
+    the rules are not vacuous on today's tree; it never changes the verdict of the property."""
+    import concurrent.futures as cf
+
+    from . import selftest
+
+    vs = selftest.load_variants([pid])
+    repo = os.environ.get("REXSA_REPO") or "/repo"
+    if os.path.basename(os.path.normpath(repo)) == "rex" and not os.path.isdir(os.path.join(repo, "rex")):
+        repo = os.path.dirname(os.path.normpath(repo))
+    res = []
+    with cf.ThreadPoolExecutor(max_workers=int(os.environ.get("REXSA_JOBS", "16"))) as ex:
+        res = list(ex.map(lambda v: selftest.run_variant(v, repo=repo), vs))
+    by = {}
+    for v, r in zip(vs, res):
+        by.setdefault((v["expect"], r["status"]), []).append(v["id"])
+    fire_ok = len(by.get(("fire", "ok"), []))
+    silent_ok = len(by.get(("silent", "ok"), []))
+    gaps = by.get(("fire", "FAIL"), [])
+    noisy = by.get(("silent", "FAIL"), [])
+    stale = [i for (e, st), ids in by.items() if st in ("stale", "bad-variant") for i in ids]
+    chk.extra_cov["sensitivity"] = {
+        "what": "single-edit variants of the current tree re-analysed with the quick rules: 'fire' edits break the property and must be "
+                "reported, 'silent' edits preserve behaviour and must not be",
+        "variants": len(vs), "breaking_detected": fire_ok, "breaking_missed": gaps, "preserving_silent": silent_ok,
+        "preserving_reported": noisy, "stale_on_this_tree": stale,
+        "samples": [{"id": v["id"], "file": v["file"], "expect": v["expect"], "rule": v.get("rule"), "status": r["status"],
+                     "edit": (v["old"][:80] + " => " + v["new"][:80])} for v, r in list(zip(vs, res))[:12]],
+    }
+    print(f"[{pid}/thorough] sensitivity: {fire_ok} breaking edits reported, {len(gaps)} missed, {silent_ok} preserving edits silent, "
+          f"{len(noisy)} reported, {len(stale)} stale")
+    for g in gaps:
+        print(f"SENSITIVITY-GAP property={pid} variant={g} (rule set did not notice this edit; verdict unaffected)")
+    for g in noisy:
+        print(f"SENSITIVITY-NOISE property={pid} variant={g} (rule set reported a behaviour-preserving edit; verdict unaffected)")
+
+
 def main(argv=None) -> int:
     ap = argparse.ArgumentParser()
     ap.add_argument("pid")
@@ -39,6 +78,8 @@ def main(argv=None) -> int:
                 mod.run_thorough(chk, model)
             except (AnchorMissing, AnalysisError) as e:
                 chk.unknown("ANCHOR", type(e).__name__ + ":thorough", str(e))
+        if args.tier == "thorough" and not args.replay and not os.environ.get("REXSA_NO_SENSITIVITY"):
+            _sensitivity(chk, pid)
         return chk.finish()
     except Exception as e:  # never let a traceback look like a violation
         traceback.print_exc()
